@@ -13,11 +13,15 @@ GEN_FILES = ["GenCli.v"]
 EXTRA_TARGETS = ["Extract/ExtractEdit.vo", "Model/RoutesRun.vo"]
 AREAS = ["edit"]
 RULE = ("exhaustive shape space: every assignment of Keep / Clear / Set to the six editable fields (3^6 = 729 requests, value shape "
-        "str or list alternating) x 19 base metafiles (v1 / v2 / hybrid x {all optional fields, none, tracker+source}, written by the "
+        "str or list alternating) x 25 base metafiles (v1 / v2 / hybrid x {all optional fields, none, tracker+source}, written by the "
         "tool's creators; reference-encoded metafiles with foreign extra keys, with several tracker tiers, 3 with UNSORTED top-level and "
-        "info keys, and 3 whose info states private = 0 explicitly) through edit_torrent, plus the CLI-expressible "
+        "info keys, and 3 whose info states private = 0 explicitly; 3 whose optional fields are all present but FALSY -- url-list / "
+        "httpseeds empty lists, comment / source / created-by empty strings, private 0 -- and 3 whose strings are not what a decoder "
+        "expects: a Latin-1 comment and web seed (not UTF-8), NFD / compatibility characters in source and created-by, a top-level and "
+        "an info key that are not UTF-8; every fourth request sets values that are neither ASCII nor NFC and must arrive byte for "
+        "byte) through edit_torrent, plus the CLI-expressible "
         "subset through `torrentfile edit` (quick tier: the CLI sampled 1/4; on the private = 0 bases every request that Sets private and a "
-        "fixed third of the others); model tie: the bytes written must equal the extracted Coq "
+        "fixed third of the others; on the falsy / text-bytes bases every request naming exactly one field and a fixed third of the others); model tie: the bytes written must equal the extracted Coq "
         "model's edit of the same file bytes; end to end, independently of the model: every named field has its value (or is gone) at "
         "its home, every other key at the top level and in info is unchanged, and the raw info span (SHA-1 and SHA-256) is identical "
         "whenever no info field was named; sequences of 1..5 requests compared with the last-write summary; a separate foreign-layout "
@@ -129,7 +133,10 @@ def run(ctx, model_ok):
         nontriv = any(c != "keep" for c in combo)
         ctx.case(key=(label, combo, via), nontrivial=nontriv,
                  classes=[f"{f}:{c}" for f, c in zip(EC.FIELDS, combo) if c != "keep"][:6] + [f"via {via}", "metafile " + label.split("/")[0]]
-                 + (["base states private=0: private " + combo[2]] if label.endswith("/private0") else []),
+                 + (["base states private=0: private " + combo[2]] if label.endswith("/private0") else [])
+                 + ([f"base holds a FALSY {f}: {c}" for f, c in zip(EC.FIELDS, combo) if f != "announce"] if label.endswith("/falsy") else [])
+                 + (["base holds non-UTF-8 / non-NFC text and keys"] if label.endswith("/textbytes") else [])
+                 + (["request sets non-ASCII, non-NFC values"] if any(isinstance(v, (str, list)) and not str(v).isascii() for v in req.values()) else []),
                  sample=desc if len(ctx.samples) < 2 and nontriv else None)
         if exc is not None:
             if isinstance(exc, IndexError) and after == before:
@@ -145,7 +152,7 @@ def run(ctx, model_ok):
         if probs:
             ctx.fail("edit-frame", dict(desc, base_hex=before.hex()), "only the named fields change", probs[:5])
 
-    EC.enumerate_edits(ctx, visit)
+    EC.enumerate_edits(ctx, visit, extra=True)
     foreign_layout(ctx, cases)
 
     if model_ok:
@@ -274,7 +281,7 @@ def interactive_edits(ctx):
     import shutil
     with core.Scratch("vc07i_") as tmp:
         os.environ["HOME"] = tmp
-        bases = EC.base_metafiles(tmp, ctx.rng)
+        bases = EC.base_metafiles(tmp, ctx.rng, extra=True)
         dialogs = [("no edit", [], {}),
                    ("comment", [("comment", "dialog comment")], {"comment": "dialog comment"}),
                    ("tracker", [("tracker", "http://i/1 http://i/2")], {"announce": "http://i/1 http://i/2"}),
@@ -313,8 +320,8 @@ def sequences(ctx):
     import shutil
     n = 30 if ctx.tier == "quick" else 500
     with core.Scratch("vc07s_") as tmp:
-        bases = EC.base_metafiles(tmp, ctx.rng)
-        reqs = EC.all_requests(ctx.tier, ctx.rng)
+        bases = EC.base_metafiles(tmp, ctx.rng, extra=True)
+        reqs = EC.all_requests(ctx.tier, ctx.rng, uni=True)
         work = os.path.join(tmp, "w.torrent")
         for i in range(n):
             label, mf = ctx.rng.choice(bases)
